@@ -117,6 +117,8 @@ auto gen_str(std::uint32_t seed, std::size_t len) -> std::basic_string<Char>
 }
 
 // ------------------------------------------------------------------ raw argument -> boundary-biased value
+// (raw arguments are mostly tiny numbers: the "random" branches spread them over the whole range by hashing)
+inline auto spread(std::uint32_t raw) -> std::size_t { return static_cast<std::size_t>((raw * 0x9E3779B1U) >> 8); }
 // position that must be valid for std (pos <= size)
 inline auto vpos(std::uint32_t raw, std::size_t size) -> std::size_t
 {
@@ -125,7 +127,7 @@ inline auto vpos(std::uint32_t raw, std::size_t size) -> std::size_t
     case 1: return size >= 1 ? 1 : 0;
     case 2: return size >= 1 ? size - 1 : 0;
     case 3: return size;
-    default: return (raw / 8) % (size + 1);
+    default: return spread(raw) % (size + 1);
     }
 }
 // search position: any value is meaningful for std (0, 1, size-1, size, size+1, npos, random)
@@ -138,7 +140,7 @@ inline auto qpos(std::uint32_t raw, std::size_t size) -> std::size_t
     case 3: return size;
     case 4: return size + 1;
     case 5: return knpos;
-    default: return (raw / 10) % (size + 2);
+    default: return spread(raw) % (size + 2);
     }
 }
 // count argument relative to what is available behind pos (0, 1, avail-1, avail, avail+1, npos, random)
@@ -151,7 +153,7 @@ inline auto qcount(std::uint32_t raw, std::size_t avail) -> std::size_t
     case 3: return avail;
     case 4: return avail + 1;
     case 5: return knpos;
-    default: return (raw / 10) % (avail + 2);
+    default: return spread(raw) % (avail + 2);
     }
 }
 // length that fits into `room` (0, 1, room-1, room, random)
@@ -162,7 +164,7 @@ inline auto fitlen(std::uint32_t raw, std::size_t room) -> std::size_t
     case 1: return room >= 1 ? 1 : 0;
     case 2: return room;
     case 3: return room >= 1 ? room - 1 : 0;
-    default: return (raw / 8) % (room + 1);
+    default: return spread(raw) % (room + 1);
     }
 }
 // length for the clamping operations: mostly fits, sometimes room+1 / room+k (a clamp event)
